@@ -107,7 +107,7 @@ func (x *exec) callFunction(st *State, cs *callSite, fn *ssa.Function, bind []Va
 		x.contractCall(st, cs, fn, ct, key, fn.Signature, args, k)
 		return
 	}
-	if fn.Parent() != nil || (ct != nil && ct.Inline) {
+	if fn.Parent() != nil || (ct != nil && ct.Inline) || (ct == nil && fn.Synthetic != "" && len(fn.Blocks) > 0 && inModule(fn)) {
 		if len(fn.Blocks) == 0 {
 			x.unknownCall(st, cs, key, inModule(fn), rt, k)
 			return
@@ -182,11 +182,77 @@ func (x *exec) invoke(st *State, cs *callSite, deferred bool, k func(*State, Val
 		x.contractCall(st, cs, nil, ct, key, c.Signature(), append([]Val{iv}, cs.args...), k)
 		return
 	}
+	// a tag already fixed on this path by an earlier dispatch?
+	if id, ok := st.knownTags[iv.Tag.S]; ok {
+		x.dispatchTo(st, cs, iv, id, deferred, k)
+		return
+	}
 	module := false
 	if n, ok := c.Value.Type().(*types.Named); ok && n.Obj().Pkg() != nil && strings.HasPrefix(n.Obj().Pkg().Path(), ModPath) {
 		module = !isCallbackIface(n.Obj().Name())
 	}
+	// closed world: an interface of the module with an unexported method can only be
+	// implemented by types of the module; dispatch by case split over them.
+	if module && !c.Method.Exported() {
+		iface := c.Value.Type().Underlying().(*types.Interface)
+		var ids []int
+		for id := 1; id < len(x.e.tagTypes); id++ {
+			if types.Implements(x.e.tagTypes[id], iface) && !forwardsIface(x.e.tagTypes[id], c.Value.Type()) {
+				ids = append(ids, id)
+			}
+		}
+		if len(ids) > 0 && len(ids) <= 8 {
+			var alts []Term
+			for _, id := range ids {
+				alts = append(alts, Eq(iv.Tag, IntLit(int64(id))))
+			}
+			st.assume(Or(alts...)) // closed world
+			x.ctx.note("interface " + itn + ": closed-world dispatch over its module implementers (forwarding wrappers embedding the interface itself are assumed not to nest)")
+			for i, id := range ids {
+				s2 := st
+				if i < len(ids)-1 {
+					s2 = st.clone()
+					x.ctx.Paths++
+				}
+				s2.assume(Eq(iv.Tag, IntLit(int64(id))))
+				s2.knownTags[iv.Tag.S] = id
+				s2.path = append(s2.path, fmt.Sprintf("%s is %s", shortName(x.condDesc(c.Value)), canonTypeString(x.e.tagTypes[id])))
+				x.dispatchTo(s2, cs, iv, id, deferred, k)
+			}
+			return
+		}
+	}
 	x.unknownCall(st, cs, "interface method "+key, module, rt, k)
+}
+
+// forwardsIface: t (or *t) is a struct that embeds the interface itself, i.e. a pure
+// forwarding wrapper. Such wrappers are assumed not to wrap each other (listed assumption).
+func forwardsIface(t types.Type, it types.Type) bool {
+	st, ok := deref(t).Underlying().(*types.Struct)
+	if !ok {
+		return false
+	}
+	for i := 0; i < st.NumFields(); i++ {
+		if st.Field(i).Embedded() && types.Identical(st.Field(i).Type(), it) {
+			return true
+		}
+	}
+	return false
+}
+
+func (x *exec) dispatchTo(st *State, cs *callSite, iv *IfaceV, id int, deferred bool, k func(*State, Val)) {
+	c := cs.common
+	ct := x.e.tagTypes[id]
+	sel := x.e.Prog.MethodSets.MethodSet(ct).Lookup(c.Method.Pkg(), c.Method.Name())
+	if sel == nil {
+		panic(unsupported("dispatch: no method " + c.Method.Name() + " on " + ct.String()))
+	}
+	fn := x.e.Prog.MethodValue(sel)
+	if fn == nil {
+		panic(unsupported("dispatch: abstract method"))
+	}
+	recv := x.unbox(st, iv.Pay, ct)
+	x.callFunction(st, cs, fn, nil, append([]Val{recv}, cs.args...), deferred, k)
 }
 
 // user-supplied callback interfaces (T-cb)
